@@ -294,7 +294,7 @@ func init() {
 	fw.Register(&fw.Prop{
 		ID:          "C20",
 		Level:       "fault_enumeration",
-		Rule:        "every request of the catalogue (every command: valid, ill-formed, surplus, unknown, handler error, QUIT) x {whole; a failing Write; unauthorised (requirepass set); authorised after AUTH; end of stream at every byte offset (quick: every 3rd for non-valid shapes) with EOF and with reset}; non-command top-level values and malformed frames, also unauthorised; all ordered pairs of representatives (whole, a write failing from reply 1 or 2, unauthorised, cuts at the boundary and at every 2nd offset of the last request; thorough: all triples with every cut offset of the last request under EOF and reset, a write failing from reply 1, 2 or 3, unauthorised). A recording tracer built on the library's own span-stack context logs every start/finish; the log is replayed against the stack discipline (one open root at a time, child inside parent, nothing finished twice, nothing left open, a root per request). Plus PING X PING for every catalogue request X with SetTracer(second tracer) called while the connection waits right before / after X, with and without a first tracer: both logs balanced. Plus X PING with every registered connection closed by the application while the loop waits right after X.",
+		Rule:        "every request of the catalogue (every command: valid, ill-formed, surplus, unknown, handler error, QUIT) x {whole; a failing Write; unauthorised (requirepass set); authorised after AUTH; end of stream at every byte offset (quick: every 3rd for non-valid shapes) with EOF and with reset}; non-command top-level values and malformed frames, also unauthorised; all ordered pairs of representatives (whole, a write failing from reply 1 or 2, unauthorised, cuts at the boundary and at every 2nd offset of the last request; thorough: all triples with every cut offset of the last request under EOF and reset, a write failing from reply 1, 2 or 3, unauthorised). A recording tracer built on the library's own span-stack context logs every start/finish; the log is replayed against the stack discipline (one open root at a time, child inside parent, nothing finished twice, nothing left open, a root per request). Plus PING X PING for every catalogue request X with SetTracer(second tracer) called while the connection waits right before / after X, with and without a first tracer: both logs balanced. Plus X PING with every registered connection closed by the application while the loop waits right after X. Plus X X PING with a second client connecting, being served (PING, SET, GET, unknown command, INCR) and leaving while the first connection waits between its requests: each connection's spans balanced on their own.",
 		Assumptions: []string{"the password authenticator is installed through the public API the way Server.Start does"},
 		Run:         c20Run,
 		Replay:      c20Replay,
